@@ -822,3 +822,123 @@ func ruleC08None(c *Ctx) {
 	c.judge("C08.none", "resolver(none)", npr, bad, rows, "RequestPath returns nil")
 	_ = sort.Strings
 }
+
+
+// ---------- C06.refgroup ----------
+
+// ruleC06RefGroup: one unrolling of the @REFGROUP filter: a group passes its
+// ancestors iff every ancestor below the top level has no filter of its own
+// or accepts the name; the group filter is passes(parent) ∧ matches(group).
+func ruleC06RefGroup(c *Ctx) {
+	rgT := c.namedType("/internal/refopts", "refGroup")
+	passes := c.fn("/internal/refopts", "", "refGroupPasses")
+	if rgT == nil {
+		c.violate("C06.refgroup", "refGroup", token.NoPos, "", "type refopts.refGroup not found")
+		return
+	}
+	st, ok := rgT.Underlying().(*types.Struct)
+	if !ok {
+		return
+	}
+	// find the ancestor-pass function by role if it was renamed: (rg *refGroup, refname string) bool, self-recursive on a *refGroup field
+	if passes == nil {
+		for _, f := range c.ModFns {
+			if pkgOf(f) != modPath+"/internal/refopts" || f.Signature.Params().Len() != 2 || f.Signature.Results().Len() != 1 || !isBoolType(f.Signature.Results().At(0).Type()) {
+				continue
+			}
+			rec := false
+			for _, call := range callsTo(f, f) {
+				if _, p := c.fieldPath(c.resolve(call.Call.Args[0])); len(p) == 1 {
+					rec = true
+				}
+			}
+			if rec && isPtrToNamed(f.Signature.Params().At(0).Type(), modPath+"/internal/refopts", "refGroup") {
+				passes = f
+			}
+		}
+	}
+	if passes == nil {
+		c.violate("C06.refgroup", "ancestor-pass", token.NoPos, "", "no function decides whether a refgroup's ancestors let a reference through: @REFGROUP would not be limited to the members of the group")
+		return
+	}
+	mk := func() aVal {
+		s := aStruct{rgT, map[int]aVal{}}
+		for i := 0; i < st.NumFields(); i++ {
+			fv := st.Field(i)
+			switch {
+			case isNamed(fv.Type(), modPath+"/sizes", "RefGroup"):
+				inner := aStruct{fv.Type(), map[int]aVal{}}
+				ist := fv.Type().Underlying().(*types.Struct)
+				for j := 0; j < ist.NumFields(); j++ {
+					inner.f[j] = aSym("G." + ist.Field(j).Name())
+				}
+				s.f[i] = inner
+			case isNamed(fv.Type(), modPath+"/git", "ReferenceFilter"):
+				s.f[i] = aIface{aSym("maybe-nil:F"), fv.Type()}
+			case isPtrToNamed(fv.Type(), modPath+"/internal/refopts", "refGroup"):
+				s.f[i] = aSym("PARENT")
+			default:
+				s.f[i] = aSym("g." + fv.Name())
+			}
+		}
+		return aPtr{&aCell{v: s}}
+	}
+	rows := aEnumerate(nil, func(e *aEnv) aVal { return c.aCall(passes, []aVal{mk(), aSym("R")}, e, 0, nil) })
+	TOP, REC, NIL, FIL := `["" == G.Symbol]`, "rec:"+passes.Name()+"(PARENT,R)", "[F == nil]", "maybe-nil:F.Filter()"
+	t := checkTable(rows, []string{TOP, REC, NIL, FIL}, func(a map[string]bool) string {
+		switch {
+		case a[TOP]:
+			return "true"
+		case !a[REC]:
+			return "false"
+		}
+		return fmt.Sprint(a[NIL] || a[FIL])
+	})
+	c.judge("C06.refgroup", "ancestor-pass", passes, t, rows, "top level ⇒ true; else ancestors pass ∧ (no own filter ∨ own filter accepts)")
+	// the group filter: passes(parent) ∧ matches(group)
+	gf := c.namedType("/internal/refopts", "refGroupFilter")
+	if gf == nil {
+		return
+	}
+	m := c.methodOf(gf, "Filter")
+	if m == nil {
+		c.violate("C06.refgroup", "group-filter", token.NoPos, "", "refopts.refGroupFilter has no Filter method")
+		return
+	}
+	matches := c.fn("/internal/refopts", "", "refGroupMatches")
+	sums := map[string]aSummary{
+		passes.String(): func(fr *aFrame, args []aVal) (aVal, bool) {
+			return aBool(fr.env.atom("PASSES(" + aShow(args[0]) + ")")), true
+		},
+	}
+	if matches != nil {
+		sums[matches.String()] = func(fr *aFrame, args []aVal) (aVal, bool) {
+			return aBool(fr.env.atom("MATCHES(" + aShow(args[0]) + ")")), true
+		}
+	}
+	recv := aStruct{gf, map[int]aVal{0: mk()}}
+	rows = aEnumerate(nil, func(e *aEnv) aVal { return c.aCall(m, []aVal{recv, aSym("R")}, e, 0, sums) })
+	P, M := "PASSES(PARENT)", "MATCHES(&cell)"
+	t = checkTable(rows, []string{P, M}, func(a map[string]bool) string { return fmt.Sprint(a[P] && a[M]) })
+	c.judge("C06.refgroup", "group-filter", m, t, rows, "@G matches a name iff G's ancestors let it through and G itself (or, without a filter of its own, one of its subgroups) matches")
+	// matches(group): own filter decides when there is one
+	if matches != nil {
+		rows = aEnumerate(nil, func(e *aEnv) aVal { return c.aCall(matches, []aVal{mk(), aSym("R")}, e, 0, nil) })
+		bad := ""
+		for _, r := range rows {
+			isNil, asked := r.Atoms[NIL]
+			if !asked {
+				bad = "the group's own filter is not consulted first: " + r.String()
+				continue
+			}
+			if !isNil {
+				if len(r.Undec) > 0 {
+					bad = "UNDECIDED " + strings.Join(r.Undec, "; ")
+				} else if fb, ok := r.Result.(aBool); !ok || bool(fb) != r.Atoms[FIL] {
+					bad = "a group with a filter of its own does not match exactly what that filter accepts: " + r.String()
+				}
+			}
+		}
+		c.judge("C06.refgroup", "group-match", matches, bad, rows, "own filter present ⇒ exactly its verdict (the filterless case, a union over subgroups, is a loop and not interpreted)")
+	}
+}
